@@ -58,8 +58,8 @@ def bounds(tier):
     return {
         "gt": ("members N<=3,G<=2 (all <=2-mutation lists as sites) + N=4,G=1 (<=1-mutation lists "
                "+ all two-node pairs) + N=4,G=2 (<=1-mutation lists, reduced argument set)" if q else
-               "members N<=3,G<=3 and N=4,G<=2 (all <=2-mutation lists as sites), N=4,G=3 and N=5,G=1 "
-               "(<=1-mutation lists + pairs); frac grid N<=3,G=2"),
+               "members N<=3,G<=3 and N=4,G<=2 (all <=2-mutation lists as sites), N=4,G=3 (<=1-mutation "
+               "lists), N=5,G=1 (<=1-mutation lists + pairs); frac grid N=3,G=2 with all weak time orders"),
         "mask": ("9 members (N<=2,G=3) x <=3-subsets of {0,.5,1,1.5,2.5}; 4 frac-grid members (L=2.25) x "
                  "<=3-subsets of {0,.25,.5,1.375}; 3 members with L=0.5 x subsets of {0,.25,.375}" if q else
                  "25 members (N<=2,G=3, all flags) x <=3-subsets of {0,.5,1,1.5,2.5}; 12 frac-grid members "
@@ -107,7 +107,7 @@ def shards(tier, seed):
         _split(specs, "gt", dict(N=3, G=2, grid="frac", times="weak"), 40, maxm=2, pairs=False, level="full")
         _split(specs, "gt", dict(N=4, G=1), 16, maxm=2, pairs=False, level="full")
         _split(specs, "gt", dict(N=4, G=2), 60, maxm=2, pairs=False, level="reduced")
-        _split(specs, "gt", dict(N=4, G=3), 600, maxm=1, pairs=True, level="reduced")
+        _split(specs, "gt", dict(N=4, G=3), 600, maxm=1, pairs=False, level="reduced")
         _split(specs, "gt", dict(N=5, G=1), 100, maxm=1, pairs=True, level="reduced")
     # ---- mask / alleles
     fl = "allsamples" if q else "all"
